@@ -474,6 +474,7 @@ def run_check(prop, tier, seed, obligations, ctx, level, functions, assumptions,
     results.sort(key=lambda r: r.obl.name)
     kf = load_known()
     violations, known_lines, degraded, infra = [], [], [], list(ctx.infra_errors)
+    to_replay = []
     for r in results:
         o = r.obl
         if r.status in ("error", "timeout"):
@@ -491,7 +492,41 @@ def run_check(prop, tier, seed, obligations, ctx, level, functions, assumptions,
                 r.status = "degraded"
                 degraded.append((o, aux))
             continue
-        doc = build_replay(ctx, o, r)
+        to_replay.append((r, plevel))
+    # counterexample -> replay file -> native run, in parallel; obligations that can match a known finding first, and a
+    # budget on full replays so that a change that breaks hundreds of obligations is still reported in reasonable time
+    budget = int(os.environ.get("VERIF_REPLAY_BUDGET", "24"))
+    def kf_first(item):
+        o = item[0].obl
+        return 0 if any(k.get("property") == o.prop and fnmatch.fnmatch(o.name, k.get("obligation", "*")) for k in kf) else 1
+    to_replay.sort(key=lambda it: (kf_first(it), it[0].obl.name))
+    docs = {}
+    def do_replay(item):
+        r, _ = item
+        return r.obl.name, build_replay(ctx, r.obl, r)
+    full = [it for it in to_replay if kf_first(it) == 0] + [it for it in to_replay if kf_first(it) == 1][:budget]
+    with ThreadPoolExecutor(max_workers=max(2, JOBS // 2)) as ex:
+        for name, doc in ex.map(do_replay, full):
+            docs[name] = doc
+    for r, plevel in to_replay:
+        o = r.obl
+        if o.name not in docs:      # beyond the replay budget: the replay file names the obligation and carries the verifier output
+            saved = o.replayable
+            o.replayable = False
+            try:
+                rdir = os.path.join(VERIF, "evidence", "replay"); os.makedirs(rdir, exist_ok=True)
+                path = os.path.join(rdir, re.sub(r"[^A-Za-z0-9_.-]", "_", o.name) + ".json")
+                with open(path, "w") as f:
+                    json.dump({"obligation": o.name, "property": o.prop, "harness": o.harness, "entry": o.entry,
+                               "defines": o.defines, "mode": o.mode, "bound": o.bound, "inputs_c": None,
+                               "failed_cbmc_properties": [{"id": a, "description": b} for a, b in r.failed],
+                               "note": "replay budget (%d) exhausted by sibling obligations of this run; re-run with "
+                                       "--only '%s' for a replayed counterexample" % (budget, o.name)}, f, indent=1)
+                r.replay = path
+            finally:
+                o.replayable = saved
+            docs[o.name] = {}
+        doc = docs[o.name]
         k = match_known(kf, o, doc) if (r.reproduced or not o.replayable) else None
         if k:
             r.known = k
